@@ -5,6 +5,8 @@ R2 a non-empty result at the final step is dominated by the server-signature / r
 R3 the managers report success only after consulting the mechanism object (completion check; success data is verified)
 R4 the proof is computed from the right secrets (def-use roles of "Client Key" / "Server Key", one hash source)
 """
+import re
+
 from .. import cfgx
 from ..build import AnalysisBroken
 
@@ -32,13 +34,66 @@ def is_nullopt_return(fn, n):
     return False
 
 
+def step_field(fn):
+    """the step counter of a SASL client: the integer member of the class that respond() increments (whatever it is called)"""
+    cands = []
+    for j, m in fn.all_nodes('un'):
+        if m['op'] in ('post++', 'pre++'):
+            t = fn.nodes[fn.skip(m['e'])]
+            if t['k'] == 'mem' and (t.get('tc') or '').startswith('int'):
+                cands.append(t['f'])
+    for j, m in fn.all_nodes('assign'):
+        t = fn.nodes[fn.skip(m['l'])]
+        if t['k'] == 'mem' and (t.get('tc') or '').startswith('int') and m['op'] in ('+=', '='):
+            cands.append(t['f'])
+    if not cands:
+        raise AnalysisBroken('C06: no step counter (integer member incremented by %s) found' % fn.qname)
+    return max(set(cands), key=cands.count)
+
+
 def step_binding(fn, step):
+    fld = step_field(fn)
+
     def custom(f, nid, st):
         n = f.nodes[nid]
-        if n['k'] == 'mem' and n['name'] == 'm_step':
+        if n['k'] == 'mem' and n.get('f') == fld:
             return (step,)
         return None
     return custom
+
+
+def from_input(f, nid):
+    """the expression is computed from the message handed to respond() (parameter 0), e.g. parse(p0).value('r')"""
+    return any(f.nodes[j]['k'] == 'var' and f.nodes[j].get('pidx') == 0 for j in _walk_inl(f, nid))
+
+
+def _walk_inl(f, nid, depth=0, seen=None):
+    seen = set() if seen is None else seen
+    for j in f.walk(nid):
+        if j in seen:
+            continue
+        seen.add(j)
+        yield j
+        n = f.nodes[j]
+        if n['k'] == 'var' and n.get('vk') == 'local' and depth < 5:
+            d = f.single_def(n['decl'])
+            if d is not None:
+                yield from _walk_inl(f, d, depth + 1, seen)
+
+
+def is_member(f, nid):
+    n = f.nodes[f.skip(nid)]
+    return n['k'] == 'mem' and f.nodes[f.skip(n['base'])]['k'] == 'this' if 'base' in n else n['k'] == 'mem'
+
+
+def crypto_sinks(prog, fn):
+    """calls of the key-derivation / HMAC / hash primitives in fn, and calls of same-file helpers that contain them"""
+    sinks = [i for i, n in fn.calls() if fn.cname(n) in CRYPTO]
+    for i, n in fn.calls():
+        for g in prog.callee_fns(fn, n):
+            if g.file == fn.file and g.id != fn.id and any(g.cname(m) in CRYPTO for _, m in g.calls()):
+                sinks.append(i)
+    return sinks
 
 
 def run(prog, run):
@@ -58,9 +113,9 @@ def scram(prog, run):
     r1 = run.rule('C06.R1', 'server-first parameters are validated (nonce extends ours, salt non-empty, iterations >= 1) before any key derivation, HMAC or response', floor=3)
     r2 = run.rule('C06.R2', 'the final step yields a result only if the server signature / rspauth matches; every accepting path advances the step; unknown steps are refused', floor=6)
     fn = prog.fn(SCRAM)
-    sinks = [i for i, n in fn.calls() if fn.cname(n) in CRYPTO]
-    if len(sinks) < 5:
-        raise AnalysisBroken('C06.R1: expected the PBKDF2/HMAC/H calls in %s, found %d' % (SCRAM, len(sinks)))
+    sinks = crypto_sinks(prog, fn)
+    if not sinks:
+        raise AnalysisBroken('C06.R1: no PBKDF2/HMAC/H call (direct or through a helper) found in %s' % SCRAM)
 
     # locate the three validations structurally (operands), independent of variable names
     def src_of(f, nid):
@@ -84,8 +139,8 @@ def scram(prog, run):
     def nonce_case(f, nid, st):
         n = f.nodes[nid]
         if n['k'] == 'call' and f.cname(n) == 'QByteArray::startsWith' and n.get('obj') is not None and n.get('args'):
-            o = f.fmt(n['obj'])
-            if 'parseGS2(p0)' in o and 'm_nonce' in f.fmt(n['args'][0]):
+            # <value taken from the server message>.startsWith(<member of the client>): the nonce-extension test
+            if from_input(f, n['obj']) and f.nodes[f.skip(n['args'][0])]['k'] == 'mem' and not from_input(f, n['args'][0]):
                 return (False,)
         return None
 
@@ -93,14 +148,14 @@ def scram(prog, run):
         n = f.nodes[nid]
         if n['k'] == 'call' and f.cname(n) == 'QByteArray::isEmpty' and n.get('obj') is not None:
             o = f.fmt(n['obj'])
-            if 'QByteArray::fromBase64' in o and 'parseGS2(p0)' in o:
+            if 'QByteArray::fromBase64' in o and from_input(f, n['obj']):
                 return (True,)
         return None
 
     def iter_case(f, nid, st):
         n = f.nodes[nid]
         if n['k'] == 'call' and f.cname(n) in ('QByteArray::toInt', 'QByteArray::toUInt', 'QByteArray::toLong', 'QByteArray::toLongLong') \
-                and n.get('obj') is not None and 'parseGS2(p0)' in f.fmt(n['obj']):
+                and n.get('obj') is not None and from_input(f, n['obj']):
             return (0,)
         return None
 
@@ -129,8 +184,9 @@ def scram(prog, run):
     def sig_case(f, nid, st):
         bo = f.binop(nid)
         if bo and bo[0] in ('==', '!='):
-            t = f.fmt(nid)
-            if 'm_serverSignature' in t and 'parseGS2(p0)' in t:
+            sides = [bo[1], bo[2]]
+            # <value taken from the server message> compared with <member of the client>: the server signature test
+            if any(from_input(f, x) for x in sides) and any(f.nodes[f.skip(x)]['k'] == 'mem' and 'QByteArray' in (f.nodes[f.skip(x)].get('t') or '') and not from_input(f, x) for x in sides):
                 return (bo[0] == '!=',)
         return None
 
@@ -160,17 +216,20 @@ def _steps(prog, run, rid, fn, cls):
         if is_nullopt_return(fn, n):
             continue
         run.instance(rid)
-        incs = [j for j, m in fn.all_nodes('un') if m['op'] in ('post++', 'pre++') and fn.nodes[fn.skip(m['e'])].get('name') == 'm_step']
-        incs += [j for j, m in fn.all_nodes('assign') if fn.nodes[fn.skip(m['l'])].get('name') == 'm_step']
+        sf = step_field(fn)
+        incs = [j for j, m in fn.all_nodes('un') if m['op'] in ('post++', 'pre++') and fn.nodes[fn.skip(m['e'])].get('f') == sf]
+        incs += [j for j, m in fn.all_nodes('assign') if fn.nodes[fn.skip(m['l'])].get('f') == sf]
         if any(fn.node_dominates(j, i) and fn.pos(j)[0] != fn.entry or (fn.node_dominates(j, i)) for j in incs):
             run.ok(rid, fn.loc(i), '%s: accepting return preceded by m_step advance' % cls)
         else:
             run.violation(rid, '%s::respond#replayable-step' % cls, fn.loc(i), 'a step produces a response without advancing m_step (it can be replayed)')
     run.instance(rid)
 
+    sf2 = step_field(fn)
+
     def big(f, nid, st):
         n = f.nodes[nid]
-        if n['k'] == 'mem' and n['name'] == 'm_step':
+        if n['k'] == 'mem' and n.get('f') == sf2:
             return (99,)
         return None
     ev = cfgx.Evaluator(fn, {}, custom=big)
@@ -214,7 +273,8 @@ def digest(prog, run):
         bad = [i for i, n in fn.returns() if fn.pos(i) and fn.pos(i)[0] in reach and not is_nullopt_return(fn, n)]
         digests = [i for i, n in fn.calls() if fn.cname(n).endswith('calculateDigest') and fn.pos(i) and fn.pos(i)[0] in reach
                    and any(isinstance(p, bool) for c, p in fn.atomic_assertions_at(i))]
-        step1_digests = [i for i in digests if any(fn.fmt(c).find('m_step == 1') >= 0 and p is True for c, p in fn.atomic_assertions_at(i))]
+        sfd = step_field(fn).split('::')[-1]
+        step1_digests = [i for i in digests if any(fn.fmt(c).find('%s == 1' % sfd) >= 0 and p is True for c, p in fn.atomic_assertions_at(i))]
         if bad or step1_digests:
             site = fn.loc((bad or step1_digests)[0])
             run.violation(r1, 'QXmppSaslClientDigestMd5::respond#step1#' + label.replace(' ', '-'), site,
@@ -355,51 +415,134 @@ def managers(prog, run):
 
 
 # --------------------------------------------------------------------------- roles
+def _helpers_called(prog, fn):
+    """(call node id, callee Fn) for calls of free/static helper functions defined in the same file"""
+    out = []
+    for i, n in fn.calls():
+        for g in prog.callee_fns(fn, n):
+            if g.file == fn.file and g.id != fn.id and not g.is_lambda and g.entry is not None:
+                out.append((i, g))
+    return out
+
+
+def _subst(text, argtexts):
+    return re.sub(r'\bp(\d+)\b', lambda m: '(' + argtexts[int(m.group(1))] + ')' if int(m.group(1)) < len(argtexts) else m.group(0), text)
+
+
+def expand(prog, f, nid, depth=0):
+    """canonical text of a value with same-file helper calls looked through: helper(args) -> its returned expression with the parameters replaced,
+    helper(args).field -> the matching element of the returned aggregate"""
+    nid = f.resolve(nid) if hasattr(f, 'resolve') else nid
+    n = f.nodes[f.skip(nid)]
+    if depth < 3:
+        call = None
+        field = None
+        if n['k'] == 'mem' and n.get('base') is not None:
+            b = f.nodes[f.resolve(n['base'])]
+            if b['k'] == 'call':
+                call, field = b, n.get('name')
+        elif n['k'] == 'call':
+            call = n
+        if call is not None:
+            for g in prog.callee_fns(f, call):
+                if g.file != f.file or g.is_lambda or g.entry is None:
+                    continue
+                rets = [r for _, r in g.returns() if 'e' in r]
+                if len(rets) != 1:
+                    continue
+                e = g.nodes[g.skip(rets[0]['e'])]
+                target = rets[0]['e']
+                if field is not None:
+                    items = e.get('elems') or e.get('args') or []
+                    rec = None
+                    for rq in (g.raw.get('ret') or '', (prog.fns[g.id].sym_ret if hasattr(prog.fns[g.id], 'sym_ret') else '')):
+                        pass
+                    # field order from the record facts
+                    recs = [r for r in prog.records.values() if any(fl['name'] == field for fl in r['fields'])] if hasattr(prog, 'records') else []
+                    idx = None
+                    for r in recs:
+                        names = [fl['name'] for fl in r['fields']]
+                        if len(names) == len(items):
+                            idx = names.index(field)
+                    if idx is None or idx >= len(items):
+                        continue
+                    target = items[idx]
+                argtexts = [expand(prog, f, a, depth + 1) for a in call.get('args', [])]
+                return _subst(expand(prog, g, target, depth + 1), argtexts)
+    return f.fmt(nid, inline=True)
+
+
 def roles(prog, run):
     r4 = run.rule('C06.R4', 'the client proof derives from "Client Key" and the stored server signature from "Server Key", both from the PBKDF2 of the '
                             'password with the server\'s salt and iteration count, using one hash algorithm source', floor=4)
     fn = prog.fn(SCRAM)
-    hm = [(i, n) for i, n in fn.calls('QMessageAuthenticationCode::hash')]
+    helpers = _helpers_called(prog, fn)
+    # labelled HMACs in respond() or in a same-file helper it calls; their key argument expanded into respond()'s terms
     keys = {}
-    for i, n in hm:
-        lit = fn.strval(n['args'][0])
-        if lit in ('Client Key', 'Server Key'):
-            keys[lit] = (i, n)
+    scopes = [(fn, None)] + [(g, i) for i, g in helpers]
+    for g, site in scopes:
+        for i, n in g.calls('QMessageAuthenticationCode::hash'):
+            lit = g.strval(n['args'][0])
+            if lit in ('Client Key', 'Server Key'):
+                t = g.fmt(n['args'][1], inline=True)
+                if site is not None:
+                    t = _subst(t, [expand(prog, fn, a) for a in fn.nodes[site].get('args', [])])
+                keys[lit] = (g, i, t)
     run.instance(r4)
     if set(keys) != {'Client Key', 'Server Key'}:
         run.violation(r4, 'QXmppSaslClientScram::respond#key-labels', fn.loc(), 'HMAC labels "Client Key"/"Server Key" not both present: %s' % sorted(keys))
         return
     run.ok(r4, fn.loc(), 'both RFC 5802 key labels present')
-    # salted password source
+    # salted password source: PBKDF2 over a member (the password) with salt and iteration count taken from the server message
     run.instance(r4)
     okp = True
-    for lab, (i, n) in keys.items():
-        key_arg = fn.fmt(n['args'][1])
-        if 'QPasswordDigestor::deriveKeyPbkdf2' not in key_arg or 'm_password' not in key_arg or 'parseGS2(p0)' not in key_arg:
+    for lab, (g, i, key_arg) in keys.items():
+        if 'QPasswordDigestor::deriveKeyPbkdf2' not in key_arg or 'this.' not in key_arg or 'p0' not in key_arg or 'fromBase64' not in key_arg:
             okp = False
-    if okp:
+    # the password argument of PBKDF2 is a QString member converted to bytes, not something from the wire or a cache
+    for g, site in scopes:
+        for i, n in g.calls('QPasswordDigestor::deriveKeyPbkdf2'):
+            pw = g.nodes[g.resolve(n['args'][1])] if len(n['args']) > 1 else None
+            pwt = g.fmt(n['args'][1], inline=True) if len(n['args']) > 1 else ''
+            if site is None and not (pwt.startswith('this.') and 'p0' not in pwt):
+                okp = False
+    if okp and len(set(k[2] for k in keys.values())) == 1:
         run.ok(r4, fn.loc(), 'both keys are HMACs keyed by PBKDF2(password, server salt, server iterations)')
     else:
         run.violation(r4, 'QXmppSaslClientScram::respond#salted-password', fn.loc(), 'a key is not derived from PBKDF2(password, salt, iterations)')
-    # roles: server signature from Server Key; proof from Client Key
+    # roles: the member compared with the server's final message holds the Server Key signature; the response carries the Client Key proof
     run.instance(r4)
+    sig_members = set()
+    for i in range(len(fn.nodes)):
+        bo = fn.binop(i)
+        if bo and bo[0] in ('==', '!='):
+            for x, y in ((bo[1], bo[2]), (bo[2], bo[1])):
+                xn = fn.nodes[fn.skip(x)]
+                if xn['k'] == 'mem' and 'QByteArray' in (xn.get('t') or '') and from_input(fn, y):
+                    sig_members.add(xn['f'])
     sig_ok = False
     for i, n in fn.all_nodes('assign'):
         l = fn.nodes[fn.skip(n['l'])]
-        if l.get('name') == 'm_serverSignature':
-            t = fn.fmt(n['r'])
+        if l.get('f') in sig_members:
+            t = expand(prog, fn, n['r'])
             sig_ok = '"Server Key"' in t and '"Client Key"' not in t
     proof_ok = False
     for i, n in fn.returns():
         if 'e' in n and not is_nullopt_return(fn, n):
-            t = fn.fmt(n['e'], inline=False)
-            if 'clientProof' in t or ',p=' in t:
-                # clientProof local: its definition chain must mention Client Key (through storedKey) and not Server Key
-                for j, d in fn.all_nodes('decl'):
-                    for dd in d['decls']:
-                        if 'init' in dd and dd['name'].lower().startswith('clientproof'):
-                            tt = fn.fmt(dd['init'])
-                            proof_ok = '"Client Key"' in tt and '"Server Key"' not in tt
+            consumed = set()
+            parts = []
+            for j in fn.walk(n['e']):
+                if j in consumed:
+                    continue
+                m = fn.nodes[j]
+                if m['k'] == 'mem' and m.get('base') is not None:
+                    parts.append(expand(prog, fn, j))
+                    consumed |= set(fn.walk(m['base']))       # a field access stands for that field only, not for the whole aggregate
+                elif m['k'] == 'var':
+                    parts.append(expand(prog, fn, j))
+            t = ' '.join(parts)
+            if '"Client Key"' in t:
+                proof_ok = '"Server Key"' not in t
     if sig_ok and proof_ok:
         run.ok(r4, fn.loc(), 'proof <- Client Key, stored signature <- Server Key')
     else:
@@ -408,13 +551,19 @@ def roles(prog, run):
     # one algorithm source
     run.instance(r4)
     algs = set()
-    for i, n in fn.calls():
-        if fn.cname(n) in CRYPTO:
-            for a in n.get('args', []):
-                an = fn.nodes[fn.resolve(a)]
-                if (an['k'] == 'call' and fn.cname(an).endswith('qtAlgorithm')) or (an['k'] == 'enum' and an.get('name', '').startswith('QCryptographicHash::')) \
-                        or (an['k'] in ('var', 'mem', 'call') and an.get('t', '').replace('const ', '').strip() == 'QCryptographicHash::Algorithm'):
-                    algs.add(fn.fmt(a))
+    for g, site in scopes:
+        for i, n in g.calls():
+            if g.cname(n) in CRYPTO:
+                for k_, a in enumerate(n.get('args', [])):
+                    an = g.nodes[g.resolve(a)]
+                    if (an['k'] == 'call' and g.cname(an).endswith('qtAlgorithm')) or (an['k'] == 'enum' and an.get('name', '').startswith('QCryptographicHash::')) \
+                            or (an['k'] in ('var', 'mem', 'call') and an.get('t', '').replace('const ', '').strip() == 'QCryptographicHash::Algorithm'):
+                        t = g.fmt(a)
+                        if site is not None:
+                            t = _subst(t, [expand(prog, fn, x) for x in fn.nodes[site].get('args', [])])
+                            if t.startswith('(') and t.endswith(')') and t.count('(') == t.count(')'):
+                                t = t[1:-1]
+                        algs.add(t)
     if len(algs) == 1 and 'qtAlgorithm' in list(algs)[0]:
         run.ok(r4, fn.loc(), 'every hash/HMAC/PBKDF2 uses m_mechanism.qtAlgorithm()')
     else:
